@@ -307,6 +307,21 @@ def refcell_ok(ctx, P, s, N, fn, graph, extra):
                 continue
             break
         if p.get("k") == "SLet":
-            # let rng = &mut *state.borrow_mut(); used only by rng methods in this scope
-            return None
+            # let rng = &mut *state.borrow_mut(); the borrow lives to the end of the enclosing block:
+            # nothing after it in that block may reach the transformer again
+            idx = path.index(p)
+            blk = path[idx - 1] if idx > 0 else None
+            if blk is None or "stmts" not in blk:
+                return None
+            later = blk["stmts"][blk["stmts"].index(p) + 1:] + ([blk["expr"]] if "expr" in blk else [])
+            offenders = []
+            for st in later:
+                for n in walk(st):
+                    if n.get("k") in ("Call", "MethodCall"):
+                        cs = cshort(n.get("callee", n.get("name", "")))
+                        if cs in ("Transformer::resolve", "Transformer::state", "RefCell::borrow_mut", "RefCell::borrow") or cs.endswith("::ty_example"):
+                            offenders.append(cs)
+            if offenders:
+                return False, "the rng borrow is held while `%s` runs, which may borrow the same RefCell again" % offenders[0]
+            return True, "rng borrow held to the end of a block that afterwards only uses the rng itself (no call back into the transformer)"
     return None
